@@ -37,7 +37,8 @@ MANIFEST = {
     "technique": "Lean 4 theorems over an executable health model; model tied by regenerated tables and a differential rig",
     "design_ref": "5/C14",
 }
-MODULES = ["PrimaiteModel.Lemmas.HealthEff", "PrimaiteModel.Props.C14", "PrimaiteModel.Props.C14Gen", "PrimaiteModel.Props.C14Dyn"]
+MODULES = ["PrimaiteModel.Lemmas.HealthEff", "PrimaiteModel.Props.C14", "PrimaiteModel.Props.C14Gen", "PrimaiteModel.Props.C14Dyn",
+           "PrimaiteModel.Props.C14Inv"]
 EXE = "drv_c14"
 
 
@@ -49,6 +50,7 @@ def _tokens(line: str) -> List[Tuple[str, str]]:
     resp, dump = line.split(" | ", 1)
     out = [("resp", resp)]
     try:
+        dump, view = dump.split(" V=", 1)
         p, rest = dump.split(" S=", 1)
         s, f = rest.split(" F=", 1)
     except ValueError:
@@ -70,6 +72,10 @@ def _tokens(line: str) -> List[Tuple[str, str]]:
             fp = fi.split(":")
             for name, tok in zip(("file-name", "file-actual", "file-visible", "file-deleted"), fp):
                 out.append((name, parts[0] + "/" + fp[0] + "=" + tok))
+    # what the agent sees by name (describe_state)
+    vsw, _, vfs = view.partition(";")
+    out.append(("view-software", vsw))
+    out.append(("view-file-system", vfs))
     return out
 
 
@@ -213,6 +219,12 @@ def run(ctx: Ctx):
         cases.append((f"ifix:{k}", c))
     for k, c in enumerate(rig.overlap_scan_cases(durs=ctx.scale((0, 1, 2, 6), (0, 1, 2, 3, 6)))):
         cases.append((f"oscan:{k}", c))
+    # every timed process x every lifecycle / power disturbance x every offset (enumerated)
+    for k, c in enumerate(rig.lifecycle_timer_cases(durs=ctx.scale((1, 2, 3), (0, 1, 2, 3, 5)))):
+        cases.append((f"lct:{k}", c))
+    # the fix of a database service whose completion restores the backup inside a timestep (enumerated)
+    for k, c in enumerate(rig.db_fix_cases(durs=ctx.scale((0, 1, 3), (0, 1, 2, 3, 5)))):
+        cases.append((f"dbfix:{k}", c))
     # dynamic item sets: install / uninstall, create folder / file (also over deleted names), copy; database restore
     drng = ctx.rng.fork("dyn")
     for k in range(ctx.scale(500, 5000)):
@@ -259,6 +271,12 @@ def run(ctx: Ctx):
             cut = model.index("ambiguous")
             model = model[:cut + 1]
         ctx.count("family:" + case.get("family", name.split(":")[0]))
+        ctx.count("node-kind:" + case.get("node", {}).get("kind", "scenario" if "scenario" in case else "computer"))
+        for group in resolved or []:
+            for l in group:
+                if l[0] in ("tickdb", "dbrestore"):
+                    # what the network did in a database restore (input of the model): leftover cleared? copy arrived (health)?
+                    ctx.count(f"restore:{l[0]}:cleared={l[1]}:arrived={l[2]}")
         tags = _events([m for m in model if m != "ambiguous"], case["ops"])
         ctx.case(case, bool(tags))
         for t in tags:
